@@ -212,6 +212,9 @@ K_SHARDS = [
     dict(macros=['o'], envs=['q', 'p'], specials=['~'], argless=[]),
     dict(macros=['A', 'S'], envs=[], specials=[], argless=['z']),
 ]
+KSP_SHARDS = [
+    dict(macros=['m', 'o'], envs=['e'], specials=['~~', '!!!'], argless=['z']),
+]
 D_SHARDS = [
     dict(macros=['textbf', 'frac'], envs=[], specials=['~'], argless=['alpha']),
     dict(macros=['sqrt', 'item'], envs=['itemize'], specials=[], argless=[]),
@@ -248,7 +251,7 @@ def run_c02(ctx):
                 'document is parsed strictly by the real parser and the parsed structure must be exactly the written one. '
                 'Non-trivial: >= 2 top-level constructs or a construct with children.')
     n = 4 if quick else 5
-    for cname, shards in (('k', K_SHARDS), ('default', D_SHARDS)):
+    for cname, shards in (('k', K_SHARDS), ('default', D_SHARDS), ('ksp', KSP_SHARDS)):
         m = common.run_shards(ctx, ('harness.docwriter', 'DocConsumer'),
                               jobs(cname, shards, n, ALL_FEATURES, False, True), what='DocCheck %s, <= %d actions' % (cname, n))
         ctx.add_merged(m)
